@@ -324,8 +324,10 @@ def run_fill_link(params, tier, acc):
         acc.sample(dict(kind="fill_link", buffer=buf))
 
 
-FATES = ["ok", "lost", "reply_lost", "dup", "slow", "busy"]
-FATES2 = FATES + [("late", 700), ("late", 1300)]
+from mc.fakenet import Net as _Net
+LAT = _Net.LATENCY
+FATES = ["ok", "lost", "reply_lost", "dup", "slow", "busy", "busy_dup"]
+FATES2 = FATES[:6] + [("late", 700), ("late", 1300)] + FATES[6:]
 
 
 def run_faults(params, tier, acc):
@@ -380,6 +382,11 @@ def one_fault_execution(case, ch, acc):
         fates_taken.append(f)
         if f == "dup":
             return ["ok", "dup"]
+        if f == "busy_dup":
+            # the retryable answer is duplicated by the network; the second
+            # copy arrives a little later (in this operation or, in the
+            # two-operation histories, during the next one)
+            return ["busy", ("busy_late", 3 * LAT)]
         return [f]
     sim.fate = fate
     n, addr = case["length"], case["address"]
@@ -409,7 +416,7 @@ def one_fault_execution(case, ch, acc):
             # a command is given up only after n_tries (3) transmissions
             # without an answer: fewer faults than that cannot justify it
             n_faults = sum(1 for f in fates_taken if f in (
-                "lost", "reply_lost", "busy"))
+                "lost", "reply_lost", "busy", "busy_dup"))
             if n_faults < 3:
                 acc.violation(dict(kind="unjustified_timeout",
                                    op=case["op"]),
@@ -475,6 +482,8 @@ def two_ops_execution(case, ch, acc):
         fates_taken.append(f)
         if f == "dup":
             return ["ok", "dup"]
+        if f == "busy_dup":
+            return ["busy", ("busy_late", 3 * LAT)]
         return [f]
     sim.fate = fate
     with Session(sim, window=case.get("window", 3), n_tries=3,
@@ -496,7 +505,8 @@ def two_ops_execution(case, ch, acc):
             except TE as e:
                 acc.outcome("timeout")
                 n_faults = sum(1 for f in fates_taken
-                               if f in ("lost", "reply_lost", "busy") or
+                               if f in ("lost", "reply_lost", "busy",
+                                        "busy_dup") or
                                isinstance(f, tuple))
                 if n_faults < 3:
                     acc.violation(dict(kind="unjustified_timeout",
